@@ -83,7 +83,7 @@ func TestVerif_C41_Channels(t *testing.T) {
 	defer r.Finish()
 	r.SetRule("key pairs from PRNG scalars (incl. 1..3 and N-1..N-3) and from GenerateKeyPair; a.Ecdh(B) and b.Ecdh(A) decrypt each other's ciphertexts for plaintext sizes {0,1,2,15..17,31..33,63..65,100,127,128,200,255..257,1000,4096,65536}; every single-byte modification (all positions when |c| <= 256, else 64 sampled incl. nonce/tag boundaries), 8 single-bit flips, truncations (all lengths when |c| <= 128, else sampled), extensions, and decryption under keys derived with a third pair must fail; marshal/unmarshal round trips of both key types. non-trivial = modified ciphertext or foreign key")
 	r.Assume("XSalsa20-Poly1305 forgery probability (2^-128) is neglected; the expected public key of a scalar comes from btcec/v2 (decred secp256k1), a different implementation from the btcec v0.22 used by the package")
-	n := r.N(2000, 100000)
+	n := r.N(2000, 20000) // about 150 recorded cases per pair
 	var tampered, foreign, sameSecret int64
 	verifkit.Parallel(n, 0, func(i int) {
 		rng := r.SubRand("pair", i)
@@ -100,7 +100,18 @@ func TestVerif_C41_Channels(t *testing.T) {
 		}
 		m := make([]byte, size)
 		rng.Read(m)
+		// base: the concrete inputs (for findings); label: the same with keys
+		// drawn by GenerateKeyPair from crypto/rand replaced by a placeholder,
+		// so that the case list of a seed is the same in every run
 		base := fmt.Sprintf("a=%s b=%s c=%s |m|=%d mseed=%d/%d", A.d.Text(16), B.d.Text(16), C.d.Text(16), size, r.Seed(), i)
+		aL, bL := A.d.Text(16), B.d.Text(16)
+		if i%10 == 0 {
+			aL = "GenerateKeyPair()"
+		}
+		if i%10 == 5 {
+			bL = "GenerateKeyPair()"
+		}
+		label := fmt.Sprintf("a=%s b=%s c=%s |m|=%d mseed=%d/%d", aL, bL, C.d.Text(16), size, r.Seed(), i)
 		r.Guard("channel:", base, func() {
 			kab := A.priv.Ecdh(B.pub)
 			kba := B.priv.Ecdh(A.pub)
@@ -108,7 +119,7 @@ func TestVerif_C41_Channels(t *testing.T) {
 			for dir, ks := range [][2]*SymmetricEcdhKey{{kab, kba}, {kba, kab}} {
 				desc := fmt.Sprintf("agree dir=%d %s", dir, base)
 				c, err := ks[0].Encrypt(append([]byte(nil), m...))
-				r.Case(desc, false)
+				r.Case(fmt.Sprintf("agree dir=%d %s", dir, label), false)
 				if err != nil {
 					r.Violation("encrypt:error", err.Error(), desc, nil)
 					continue
@@ -128,7 +139,7 @@ func TestVerif_C41_Channels(t *testing.T) {
 				k := ks[1]
 				check := func(kind string, c2 []byte) {
 					d2 := fmt.Sprintf("tamper %s %s", kind, base)
-					r.Case(d2, true)
+					r.Case(fmt.Sprintf("tamper %s %s", kind, label), true)
 					atomic.AddInt64(&tampered, 1)
 					p, err := k.Decrypt(c2)
 					if err == nil {
@@ -196,7 +207,7 @@ func TestVerif_C41_Channels(t *testing.T) {
 				} {
 					d2 := fmt.Sprintf("foreign %s %s", f.name, base)
 					same := f.s.Cmp(ab) == 0 || f.s.Cmp(abNeg) == 0
-					r.Case(d2, !same)
+					r.Case(fmt.Sprintf("foreign %s %s", f.name, label), !same)
 					_, err := f.k.Decrypt(append([]byte(nil), c...))
 					if same {
 						// not a foreign key: either outcome is legal
@@ -211,7 +222,7 @@ func TestVerif_C41_Channels(t *testing.T) {
 			}
 			// ---- marshalling round trips
 			desc := "marshal " + base
-			r.Case(desc, false)
+			r.Case("marshal "+label, false)
 			pm := A.pub.Marshal()
 			up, err := UnmarshalPublicKey(pm)
 			if err != nil || up == nil {
